@@ -67,9 +67,14 @@ def rule_if_flattening(repo: Repo) -> List[Ob]:
     rename_map = src(stores[0].targets[0].value)
     tests = controlling_tests(c, node_for(c, stores[0]))
     sym_names = set()
+    from ..shape import conjuncts as _conjuncts
     for t, reach in tests:
-        if isinstance(t.ast, ast.Compare) and isinstance(t.ast.ops[0], ast.In) and reach is True and isinstance(t.ast.comparators[0], ast.Name):
-            sym_names.add(t.ast.comparators[0].id)
+        if not isinstance(t.ast, ast.expr) or not isinstance(reach, bool):
+            continue
+        for fact, truth in _conjuncts(t.ast, reach):     # `if v in S:` / `if not v in S: continue` / `if v not in S: continue`
+            if isinstance(fact, ast.Compare) and len(fact.ops) == 1 and isinstance(fact.comparators[0], ast.Name) and \
+                    ((isinstance(fact.ops[0], ast.In) and truth is True) or (isinstance(fact.ops[0], ast.NotIn) and truth is False)):
+                sym_names.add(fact.comparators[0].id)
     sym_names -= {rename_map}
     ok = None
     why = "no membership test against the condition symbols controls the creation of `_old` copies"
@@ -466,6 +471,13 @@ def rule_cond2arithm(repo: Repo) -> List[Ob]:
         blk = [s for s in (getattr(parent(st), "body", []) or [])]
         rewrote = any(isinstance(s, ast.Assign) and any(isinstance(t, ast.Attribute) and t.attr == "polynomials" for t in s.targets) and av in src(s.value) for s in blk)
         ok = eq1 or rewrote
+        symbol_test = next((t for t, _ in tests if any(isinstance(x, ast.Call) and call_name(x) == "get_free_symbols" or (isinstance(x, ast.Attribute) and x.attr == "free_symbols")
+                                                        for x in ast.walk(t.ast)) and "condition" in src(t.ast)), None)
+        if not ok and symbol_test is not None and not any(av in src(t.ast) for t, _ in tests):
+            obs.append(Ob("M-cond2arithm", key + f"::drop-condition#{i}", C2A, st.lineno, m.qualname, False,
+                          f"`{src(st)}` drops the condition because it mentions no variable (`{src(symbol_test.ast)[:60]}`): a condition that normalised to `false` has no variables "
+                          "either, its assignment would become unconditional"))
+            continue
         if not ok and not any(av in src(t.ast) for t, _ in tests):
             obs.append(inconclusive("M-cond2arithm", key + f"::drop-condition#{i}", C2A, st.lineno, m.qualname, "condition removal is not controlled by a recognisable test on the indicator"))
             continue
